@@ -5,10 +5,13 @@ package main
 // Direct differential: a real *sftp.Client talks over in-memory pipes to a real os-backed sftp.Server that
 // serves tree A; the same operation is applied with package os / path/filepath to the twin tree B. After every
 // step the outcome category, the returned values and a canonical snapshot of both trees are compared.
+// Generated sequences (c05_gen.go) and directed sequences over attribute boundaries and large / long-named
+// directories (c05_attr.go) run through the same engine and oracle (c05RunSeq).
 // Model comparison: the composites Remove / MkdirAll / RemoveAll are compared with their Lean model and with the
 // reference semantics of package os in the family "composite-model" (c05_composite.go, driver ops c05c.*).
 
 import (
+	"context"
 	"crypto/sha256"
 	"encoding/hex"
 	"encoding/json"
@@ -63,6 +66,12 @@ var c05Documented = []struct{ ID, Doc, How string }{
 		"Client.Mkdir has no mode parameter; server.go creates with 0o755 (\"TODO FIXME: ignore flags field\")",
 		"os.Mkdir / os.MkdirAll are called with 0o755"},
 	{"error-text", "errors cross the wire as a status code and a message", "only the category {ok, not-exist, permission, other} is compared, never the text or the concrete type"},
+	{"readdirctx/cancelled",
+		"client.go ReadDirContext: \"The passed context can be used to cancel the operation returning all entries listed up to the cancellation\"; package os has no counterpart",
+		"with a cancelled context the call may return the context's error: then the entries returned with it must be among those os lists (none when os fails); when it returns anything else it is compared like ReadDir"},
+	{"times/uint32-range",
+		"SFTP v3 attributes carry times as uint32 seconds (1970-01-01 .. 2106-02-07)",
+		"only times inside that range are set or pre-set on files; inside it every value, 0 included, must come out as package os reports it"},
 	{"listing-order", "neither Client.ReadDir nor os.File.Readdir (which the server calls) promise an order", "ReadDir names and Glob matches are compared as sorted lists"},
 }
 
@@ -114,6 +123,9 @@ func c05StartPair(opts ...sftp.ServerOption) (*sftp.Client, func(), error) {
 			closed := make(chan struct{})
 			go func() { r.c.Close(); close(closed) }()
 			lib.WaitCleanup("c05/client-close", 5*time.Second, closed)
+			// nobody reads the server's output any more: a server blocked in a write (a client that gave up on the
+			// connection stops reading) must see the pipe closed, or it never ends
+			s2cR.Close()
 			kill()
 		}, nil
 	case <-time.After(lib.HangWait(20 * time.Second)):
@@ -133,7 +145,9 @@ type c05Run struct {
 	rootA, rootB     string
 	cli              *sftp.Client
 	stop             func()
-	cutoff           time.Time
+	opts             []sftp.ServerOption
+	cutoff, horizon  time.Time // modification times between the two are "recent" (produced by the run itself)
+	restarts         int
 }
 
 func c05NewRun(mode string, tree []c05Ent) (*c05Run, error) {
@@ -144,7 +158,7 @@ func c05NewRun(mode string, tree []c05Ent) (*c05Run, error) {
 	if b, err := filepath.EvalSymlinks(base); err == nil {
 		base = b
 	}
-	r := &c05Run{mode: mode, base: base, parentA: base + "/A", parentB: base + "/B", cutoff: time.Now().Add(-time.Hour)}
+	r := &c05Run{mode: mode, base: base, parentA: base + "/A", parentB: base + "/B", cutoff: time.Now().Add(-time.Hour), horizon: time.Now().Add(time.Hour)}
 	r.rootA, r.rootB = r.parentA+"/r", r.parentB+"/r"
 	for _, d := range []string{r.parentA, r.parentB, r.rootA, r.rootB} {
 		if err := os.Mkdir(d, 0o755); err != nil {
@@ -154,16 +168,31 @@ func c05NewRun(mode string, tree []c05Ent) (*c05Run, error) {
 	}
 	c05Build(r.rootA, tree)
 	c05Build(r.rootB, tree)
-	var opts []sftp.ServerOption
 	if mode == "rel" {
-		opts = append(opts, sftp.WithServerWorkingDirectory(r.rootA))
+		r.opts = append(r.opts, sftp.WithServerWorkingDirectory(r.rootA))
 	}
-	r.cli, r.stop, err = c05StartPair(opts...)
+	r.cli, r.stop, err = c05StartPair(r.opts...)
 	if err != nil {
 		os.RemoveAll(base)
 		return nil, err
 	}
 	return r, nil
+}
+
+// connLost reports whether the client has given up on its connection (every further call would fail whatever it is).
+func (r *c05Run) connLost() bool {
+	o := c05Guard(func() c05Out { _, err := r.cli.RealPath("."); return c05Res(err) })
+	return o.Cat == "hang" || errors.Is(o.err, sftp.ErrSSHFxConnectionLost)
+}
+
+// restart replaces a client/server pair whose connection is gone by a new one on the same tree.
+func (r *c05Run) restart() error {
+	r.stop()
+	r.stop = nil
+	var err error
+	r.cli, r.stop, err = c05StartPair(r.opts...)
+	r.restarts++
+	return err
 }
 
 func (r *c05Run) close() {
@@ -204,7 +233,7 @@ func c05Unroot(root, p string) string {
 }
 
 func (r *c05Run) snapshot(parent string) []string {
-	s := lib.Snapshot(parent, false)
+	s := c05SnapTree(parent)
 	for i := range s {
 		s[i] = r.norm(s[i])
 	}
@@ -221,10 +250,67 @@ func (r *c05Run) snapshot(parent string) []string {
 }
 
 func (r *c05Run) mtimeClass(t time.Time) string {
-	if t.Before(r.cutoff) {
+	switch {
+	case t.Before(r.cutoff):
 		return fmt.Sprintf("old:%d", t.Unix())
+	case t.After(r.horizon):
+		return fmt.Sprintf("future:%d", t.Unix())
 	}
 	return "recent"
+}
+
+// c05SnapTree is lib.Snapshot(root, false) — same lines — except that files larger than c05BigFile are hashed as
+// sparse files (offset and content of every non-zero 4 KiB block), so that a file truncated to 4 GiB costs nothing.
+func c05SnapTree(root string) []string {
+	var out []string
+	filepath.Walk(root, func(p string, fi os.FileInfo, err error) error {
+		rel, _ := filepath.Rel(root, p)
+		if err != nil {
+			out = append(out, rel+" ERR "+err.Error())
+			return nil
+		}
+		line := fmt.Sprintf("%s %s", rel, fi.Mode().String())
+		if st, ok := fi.Sys().(*syscall.Stat_t); ok {
+			line += fmt.Sprintf(" nlink=%d uid=%d gid=%d", st.Nlink, st.Uid, st.Gid)
+		}
+		switch {
+		case fi.Mode().IsRegular():
+			h := sha256.New()
+			if fi.Size() <= c05BigFile {
+				b, _ := os.ReadFile(p)
+				h.Write(b)
+			} else if f, err := os.Open(p); err != nil {
+				fmt.Fprintf(h, "open: %v", err)
+			} else {
+				err := c05SparseBlocks(f, fi.Size(), func(off int64, blk []byte) {
+					fmt.Fprintf(h, "@%d+%d:", off, len(blk))
+					h.Write(blk)
+				})
+				if err != nil {
+					fmt.Fprintf(h, "read: %v", err)
+				}
+				f.Close()
+			}
+			line += fmt.Sprintf(" size=%d sha=%s", fi.Size(), hex.EncodeToString(h.Sum(nil)[:6]))
+		case fi.Mode()&os.ModeSymlink != 0:
+			t, _ := os.Readlink(p)
+			line += " -> " + t
+		}
+		out = append(out, line)
+		return nil
+	})
+	sort.Strings(out)
+	return out
+}
+
+// timesAfter is what Chtimes left on a tree: access and modification time of the file the path resolves to, read
+// with package os on either tree right after the call (before anything else reads the file).
+func (r *c05Run) timesAfter(p string) string {
+	fi, err := os.Stat(p)
+	if err != nil {
+		return "after: " + c05Cat(err)
+	}
+	return fmt.Sprintf("after: atime=%s mtime=%s", r.mtimeClass(c05Atime(fi)), r.mtimeClass(fi.ModTime()))
 }
 
 // ---------------------------------------------------------------------------------------------
@@ -259,6 +345,11 @@ func c05Res(err error, vals ...string) c05Out {
 }
 
 func (r *c05Run) fiLine(fi os.FileInfo) string {
+	if fi == nil {
+		return "no-info"
+	}
+	// The access time is not among the values compared: os.FileInfo has no accessor for it, and the os-backed server
+	// reports Atime = Mtime (attrs.go fileStatFromInfo). What Chtimes does to the access time is observed on the trees.
 	var uid, gid uint32
 	switch s := fi.Sys().(type) {
 	case *sftp.FileStat:
@@ -266,7 +357,11 @@ func (r *c05Run) fiLine(fi os.FileInfo) string {
 	case *syscall.Stat_t:
 		uid, gid = s.Uid, s.Gid
 	}
-	return fmt.Sprintf("name=%q size=%d mode=%s dir=%v mtime=%s uid=%d gid=%d", fi.Name(), fi.Size(), fi.Mode().String(), fi.IsDir(), r.mtimeClass(fi.ModTime()), uid, gid)
+	size := fmt.Sprint(fi.Size())
+	if fi.IsDir() {
+		size = "-" // os.FileInfo.Size: "system-dependent" for directories (on ext4 it even differs between two directories filled alike)
+	}
+	return fmt.Sprintf("name=%q size=%s mode=%s dir=%v mtime=%s uid=%d gid=%d", fi.Name(), size, fi.Mode().String(), fi.IsDir(), r.mtimeClass(fi.ModTime()), uid, gid)
 }
 
 func (r *c05Run) listLines(l []os.FileInfo) []string {
@@ -352,18 +447,44 @@ func (r *c05Run) execA(op c05Op) c05Out {
 	case "chmod":
 		return c05Res(c.Chmod(p, os.FileMode(op.Mode)))
 	case "chtimes":
-		t := time.Unix(op.N, op.NS)
-		return c05Res(c.Chtimes(p, t, t))
+		m := time.Unix(op.N, op.NS)
+		a := m
+		if op.A != nil {
+			a = time.Unix(*op.A, op.NS)
+		}
+		return c05Res(c.Chtimes(p, a, m))
 	case "truncate":
 		return c05Res(c.Truncate(p, op.N))
 	case "chown":
-		return c05Res(c.Chown(p, os.Getuid(), os.Getgid()))
+		uid, gid := op.owner()
+		return c05Res(c.Chown(p, uid, gid))
 	case "readdir":
 		l, err := c.ReadDir(p)
 		if err != nil {
 			return c05Res(err)
 		}
 		return c05Res(nil, r.listLines(l)...)
+	case "readdirctx":
+		ctx, cancel := context.WithCancel(context.Background())
+		defer cancel()
+		switch op.Ctx {
+		case "cancelled":
+			cancel()
+		case "cancel-soon":
+			go func() { runtime.Gosched(); cancel() }()
+		}
+		l, err := c.ReadDirContext(ctx, p)
+		if op.Ctx != "live" && op.Ctx != "" && errors.Is(err, context.Canceled) {
+			// documented: readdirctx/cancelled
+			return c05Out{Cat: "ctx-cancelled", Vals: r.listLines(l), Err: err.Error(), err: err}
+		}
+		if err != nil {
+			return c05Res(err)
+		}
+		return c05Res(nil, r.listLines(l)...)
+	case "getwd":
+		s, err := c.Getwd()
+		return c05Res(err, "path="+r.norm(s))
 	case "glob":
 		m, err := c.Glob(p)
 		if err != nil {
@@ -387,6 +508,8 @@ func (r *c05Run) execA(op c05Op) c05Out {
 			}
 			if err := w.Err(); err != nil {
 				x += " ERR " + c05Cat(err)
+			} else {
+				x += " " + r.fiLine(w.Stat())
 			}
 			out = append(out, x)
 		}
@@ -456,13 +579,24 @@ func (r *c05Run) execB(op c05Op) c05Out {
 	case "chmod":
 		return c05Res(os.Chmod(p, os.FileMode(op.Mode)))
 	case "chtimes":
-		t := time.Unix(op.N, 0) // documented: times/second-granularity
-		return c05Res(os.Chtimes(p, t, t))
+		m := time.Unix(op.N, 0) // documented: times/second-granularity
+		a := m
+		if op.A != nil {
+			a = time.Unix(*op.A, 0)
+		}
+		return c05Res(os.Chtimes(p, a, m))
 	case "truncate":
 		return c05Res(os.Truncate(p, op.N))
 	case "chown":
-		return c05Res(os.Chown(p, os.Getuid(), os.Getgid()))
-	case "readdir":
+		uid, gid := op.owner()
+		return c05Res(os.Chown(p, uid, gid))
+	case "getwd":
+		if r.mode == "rel" {
+			return c05Res(nil, "path="+r.norm(r.rootB))
+		}
+		s, err := os.Getwd() // the server runs in this process
+		return c05Res(err, "path="+r.norm(s))
+	case "readdir", "readdirctx":
 		f, err := os.Open(p)
 		if err != nil {
 			return c05Res(err)
@@ -489,6 +623,8 @@ func (r *c05Run) execB(op c05Op) c05Out {
 			x = c05Unroot(r.rootB, x)
 			if err != nil {
 				x += " ERR " + c05Cat(err)
+			} else {
+				x += " " + r.fiLine(fi)
 			}
 			out = append(out, x)
 			return nil
@@ -506,6 +642,46 @@ func (r *c05Run) execB(op c05Op) c05Out {
 		return c05Res(nil, fmt.Sprintf("bsize=%d frsize=%d blocks=%d files=%d namemax=%d flag=%d sane=%v", v.Bsize, v.Frsize, v.Blocks, v.Files, v.Namelen, v.Flags, sane))
 	}
 	return c05Out{Cat: "unknown-op"}
+}
+
+// owner returns the ids a chown operation hands to both sides.
+func (op c05Op) owner() (uid, gid int) {
+	uid, gid = os.Getuid(), os.Getgid()
+	if op.UID != nil {
+		uid = int(*op.UID)
+	}
+	if op.GID != nil {
+		gid = int(*op.GID)
+	}
+	return
+}
+
+// c05TrimLines keeps the evidence of a failure readable: the first 24 lines, the number of lines and a hash of all.
+func c05TrimLines(l []string) []string {
+	if len(l) <= 32 {
+		return l
+	}
+	return append(append([]string(nil), l[:24]...), fmt.Sprintf("… %d lines in all, sha=%s", len(l), c05Hash(l)))
+}
+
+func c05TrimOut(o c05Out) c05Out {
+	o.Vals = c05TrimLines(o.Vals)
+	return o
+}
+
+// c05Subset reports whether every line of a occurs in b (multiset).
+func c05Subset(a, b []string) bool {
+	have := map[string]int{}
+	for _, l := range b {
+		have[l]++
+	}
+	for _, l := range a {
+		if have[l] == 0 {
+			return false
+		}
+		have[l]--
+	}
+	return true
 }
 
 // c05Guard runs a client call with the 20 s liveness deadline and turns a panic of the calling goroutine into an observation.
@@ -654,6 +830,10 @@ func c05RunSeq(mode string, tree []c05Ent, ops []c05Op, gen *rand.Rand, n int, l
 
 		outA := c05Guard(func() c05Out { return run.execA(op) })
 		outB := run.execB(op)
+		if op.K == "chtimes" { // the tree state Chtimes is about, observed before the snapshots read the files
+			outA.Vals = append(outA.Vals, run.timesAfter(c05Join(run.rootA, op.P)))
+			outB.Vals = append(outB.Vals, run.timesAfter(run.pB(op.P)))
+		}
 		before := snapB
 		snapA, snapB = run.snapshot(run.parentA), run.snapshot(run.parentB)
 		changed := !c05SameLines(before, snapB)
@@ -663,6 +843,10 @@ func c05RunSeq(mode string, tree []c05Ent, ops []c05Op, gen *rand.Rand, n int, l
 		switch {
 		case outA.Cat == "hang" || outA.Cat == "panic":
 			what = outA.Cat
+		case outA.Cat == "ctx-cancelled": // documented: readdirctx/cancelled
+			if !(outB.Cat == "ok" && c05Subset(outA.Vals, outB.Vals) || outB.Cat != "ok" && len(outA.Vals) == 0) {
+				what = "value"
+			}
 		case outA.Cat != outB.Cat:
 			// documented: removeall/missing-path
 			if !(op.K == "removeall" && leafMissing && outB.Cat == "ok" && outA.Cat == "not-exist") {
@@ -718,17 +902,75 @@ func c05RunSeq(mode string, tree []c05Ent, ops []c05Op, gen *rand.Rand, n int, l
 			if op.P != "" && op.K != "glob" && op.K != "symlink" && path.Clean(op.P) != op.P {
 				res.hist["form:non-canonical-path"]++
 			}
+			switch op.K {
+			case "chtimes":
+				a := op.N
+				if op.A != nil {
+					a = *op.A
+				}
+				res.hist["attr:chtimes/mtime="+c05TimeLabel(op.N)]++
+				res.hist["attr:chtimes/atime="+c05TimeLabel(a)]++
+				if a != op.N {
+					res.hist["attr:chtimes/atime!=mtime"]++
+				}
+			case "truncate":
+				res.hist["attr:truncate/size="+c05SizeLabel(op.N)]++
+			case "chown":
+				if op.UID != nil {
+					res.hist["attr:chown/uid="+c05IDLabel(*op.UID)]++
+				}
+				if op.GID != nil {
+					res.hist["attr:chown/gid="+c05IDLabel(*op.GID)]++
+				}
+			case "chmod":
+				if os.FileMode(op.Mode)&(os.ModeSetuid|os.ModeSetgid|os.ModeSticky) != 0 {
+					res.hist["attr:chmod/"+(os.FileMode(op.Mode)&(os.ModeSetuid|os.ModeSetgid|os.ModeSticky)).String()]++
+				}
+			case "readdirctx":
+				res.hist["ctx:"+op.Ctx+"/"+outA.Cat]++
+			case "stat", "lstat":
+				if outB.Cat == "ok" && len(outB.Vals) == 1 {
+					for _, f := range strings.Fields(outB.Vals[0]) {
+						if strings.HasPrefix(f, "mtime=") && f != "mtime=recent" && f != "mtime=old:1000000000" {
+							res.hist["attr:stat/"+strings.SplitN(f, ":", 2)[0]+":"+c05TimeLabel(c05AtoI(strings.SplitN(f, ":", 2)[1]))]++
+						}
+						if strings.HasPrefix(f, "size=") && len(f) > 12 {
+							res.hist["attr:stat/size="+c05SizeLabel(c05AtoI(f[5:]))]++
+						}
+						if (strings.HasPrefix(f, "uid=") || strings.HasPrefix(f, "gid=")) && f[4:] != "0" {
+							res.hist["attr:stat/"+f[:4]+c05IDLabel(c05AtoI(f[4:]))]++
+						}
+					}
+				}
+			case "readdir":
+				if outB.Cat == "ok" && len(outB.Vals) >= 129 {
+					res.hist[fmt.Sprintf("bigdir:readdir/entries>=%d", c05Bucket(len(outB.Vals)))]++
+				}
+			}
 		}
 
 		if what != "" {
 			f := c05Failure{Step: step, Op: op,
-				Expected: map[string]any{"side": "package os on tree B", "result": outB},
-				Actual:   map[string]any{"side": "Client/Server on tree A", "result": outA, "tree_diff(-os,+sftp)": diff}}
+				Expected: map[string]any{"side": "package os on tree B", "result": c05TrimOut(outB)},
+				Actual:   map[string]any{"side": "Client/Server on tree A", "result": c05TrimOut(outA), "tree_diff(-os,+sftp)": c05TrimLines(diff)}}
 			f.Key, f.What = run.classify(op, what, outA, outB, diff, leafIsLink, leafIsLinkSlash, selfRef)
 			f.Sig = fmt.Sprintf("%s/os=%s,sftp=%s", what, outB.Cat, outA.Cat)
 			res.failures = append(res.failures, f)
 			if outA.Cat == "hang" {
 				return res // the connection is in an unknown state
+			}
+			// a client that has given up on its connection fails every further call: the rest of the sequence runs on a new pair
+			if outA.Cat != "ok" || op.K == "walk" || op.K == "glob" {
+				if run.connLost() {
+					res.hist["effect:connection-lost-restarted"]++
+					if run.restarts >= 8 {
+						return res
+					}
+					if err := run.restart(); err != nil {
+						res.tieErr = "restart after a lost connection: " + err.Error()
+						return res
+					}
+				}
 			}
 			// resynchronise tree A with tree B so that one defect does not cascade through the rest of the sequence
 			if err := c05Clone(run.parentB, run.parentA); err != nil {
@@ -914,7 +1156,7 @@ func c05Reproduces(in c05Input, key, sig string) bool {
 	return false
 }
 
-func c05Shrink(in c05Input, key, sig string, step int) c05Input {
+func c05Shrink(in c05Input, key, sig string, step int, until time.Time) c05Input {
 	cur := c05Input{Mode: in.Mode, Tree: append([]c05Ent(nil), in.Tree...), Ops: append([]c05Op(nil), in.Ops[:step+1]...)}
 	if len(cur.Ops) == 0 {
 		cur.Ops = []c05Op{}
@@ -924,7 +1166,7 @@ func c05Shrink(in c05Input, key, sig string, step int) c05Input {
 	}
 	budget := 600
 	try := func(c c05Input) bool {
-		if budget <= 0 || lib.Stopped("c05/shrink") {
+		if budget <= 0 || lib.Stopped("c05/shrink") || time.Now().After(until) {
 			return false
 		}
 		budget--
@@ -944,6 +1186,35 @@ func c05Shrink(in c05Input, key, sig string, step int) c05Input {
 					i += size
 				}
 			}
+		}
+		// filled directories: the smallest entry count, then the shortest names, that still reproduce (bisection; the
+		// failing region is taken to be upward closed)
+		for i := range cur.Tree {
+			if cur.Tree[i].K != "fill" || round > 0 {
+				continue
+			}
+			bisect := func(get func(*c05Ent) *int, lo int) {
+				hi := *get(&cur.Tree[i])
+				for lo < hi {
+					mid := lo + (hi-lo)/2
+					c := cur
+					c.Tree = append([]c05Ent(nil), cur.Tree...)
+					*get(&c.Tree[i]) = mid
+					if try(c) {
+						hi = mid
+					} else {
+						lo = mid + 1
+					}
+				}
+				c := cur
+				c.Tree = append([]c05Ent(nil), cur.Tree...)
+				*get(&c.Tree[i]) = hi
+				if hi != *get(&cur.Tree[i]) && try(c) {
+					cur = c
+				}
+			}
+			bisect(func(e *c05Ent) *int { return &e.N }, 0)
+			bisect(func(e *c05Ent) *int { return &e.L }, 1)
 		}
 		// seed tree entries, last first
 		for i := len(cur.Tree) - 1; i >= 0; i-- {
@@ -974,7 +1245,7 @@ var c05WantedShapes = []string{
 
 func checkC05(c *lib.Ctx) {
 	r := c.R
-	r.Rule = "twin trees (seeded random small tree: dirs, files, relative/absolute/dangling/looping symlinks, hard links) under one scratch dir; tree A served by a real os-backed Server to a real Client over pipes, tree B operated with package os; PRNG sequences of 23 operation kinds over the names a b c d with nesting <= 3 (paths biased to existing entries, their children, dir-symlinks, dangling links, non-empty dirs, files used as directories; 5% written non-canonically), absolute paths and working-directory-relative paths (WithServerWorkingDirectory); after every step: outcome category, returned values, snapshot of both trees (names, types, modes, sizes, nlink, owners, contents, link texts, mtimes set by Chtimes). One case = (path mode, operation, tree state before); non-trivial = the os outcome is an error category, or the tree changes, or a path goes through a symbolic link. quick: 150 sequences of 20..40 operations; thorough: 6000 of 60..120 and 1000 of 200..400; half of the sequences in each path mode. Every failing sequence is delta-debugged on fresh twin trees (operations, then seed-tree entries) before it is reported; up to three witnesses with different signatures per key"
+	r.Rule = "twin trees (seeded random small tree: dirs, files, relative/absolute/dangling/looping symlinks, hard links; one entry in five already carries boundary times, one in eight a boundary owner, some files a sparse boundary size) under one scratch dir; tree A served by a real os-backed Server to a real Client over pipes, tree B operated with package os; PRNG sequences of 25 operation kinds (the 23 of the property plus ReadDirContext with a live / cancelled / concurrently cancelled context, and Getwd) over the names a b c d with nesting <= 3 (paths biased to existing entries, their children, dir-symlinks, dangling links, non-empty dirs, files used as directories), absolute paths and working-directory-relative paths (WithServerWorkingDirectory); attribute values are drawn from boundary tables with probability 0.4 (Chtimes seconds 0, 1, 2^31-1, 2^31, 2^32-1, atime != mtime in half of the calls), 0.15 (Truncate to 0, 1, 2^31-1, 2^31, 2^32-1, 2^32, 2^32+1: sparse files), 0.7 (Chown uid/gid 0, 1, 65534, 65535, 65536, 2^31-1, 2^31, 2^32-2, -1), Chmod with setuid/setgid/sticky in one call of four each; after every step: outcome category, returned values (FileInfo name, size of non-directories, mode, ModTime to the second, owner; Walk with the FileInfo of every visit), access and modification time left by Chtimes, snapshot of both trees (names, types, modes, sizes, nlink, owners, contents — large files by their non-zero blocks —, link texts, mtimes that are not of the run itself). DIRECTED sequences (c05_attr.go), each in both path modes: every boundary time set through Chtimes on a file / directory / through a link (both times, only one of the two, two different boundaries) and already present on the entries, every boundary size set by Truncate and already present, every setuid/setgid/sticky combination set and already present, every boundary owner set and already present — each followed by Stat, Lstat, ReadDir, ReadDirContext, Walk, Glob and by unrelated changes; directories of 129 / 1024 / 1100 entries (files, sub-directories, links) with names of 1 / 120 / 200 / 255 bytes listed by ReadDir, ReadDirContext (live, cancelled), through a link, Walk, Glob, then RemoveAll (thorough: 14 entry counts 0..4100 x 10 name lengths, all 36 atime/mtime pairs, more sizes and modes). One case = (path mode, operation, tree state before); non-trivial = the os outcome is an error category, or the tree changes, or a path goes through a symbolic link. quick: 150 generated sequences of 20..40 operations + 156 directed; thorough: 6000 of 60..120, 1000 of 200..400 + the directed ones; half of the sequences in each path mode. Every failing sequence is delta-debugged on fresh twin trees (operations, entry count and name length of filled directories by bisection, then seed-tree entries) within a time bound before it is reported; up to three witnesses with different signatures per key; a client that has lost its connection is replaced so that the rest of the sequence is judged on its own"
 	old := syscall.Umask(0o022) // documented: create/mode
 	defer syscall.Umask(old)
 	ids := []string{}
@@ -1004,6 +1275,7 @@ func checkC05(c *lib.Ctx) {
 
 	// quick: 150 sequences of 20..40 operations; thorough: 6000 of 60..120 and 1000 long ones of 200..400
 	nSeq, maxOps, nLong := 150, 40, 0
+	started := time.Now()
 	deadline := time.Now().Add(30 * time.Second)
 	if c.Tier == "thorough" {
 		nSeq, maxOps, nLong = 7000, 120, 1000
@@ -1013,8 +1285,12 @@ func checkC05(c *lib.Ctx) {
 		mode string
 		seed int64
 		n    int
+		in   *c05Input // a directed sequence (c05_attr.go); nil: generated from seed
+		fam  string
 	}
-	jobs := make([]job, nSeq)
+	c05ProbeStorable(r)
+	directed := c05DirectedSeqs(c.Tier)
+	jobs := make([]job, nSeq, nSeq+len(directed))
 	for i := range jobs {
 		mode := "abs"
 		if i%2 == 1 {
@@ -1024,8 +1300,13 @@ func checkC05(c *lib.Ctx) {
 		if i >= nSeq-nLong {
 			m = 400
 		}
-		jobs[i] = job{mode, c.Rand.Int63(), m/2 + c.Rand.Intn(m/2+1)}
+		jobs[i] = job{mode: mode, seed: c.Rand.Int63(), n: m/2 + c.Rand.Intn(m/2+1)}
 	}
+	for i := range directed {
+		jobs = append(jobs, job{mode: directed[i].in.Mode, in: &directed[i].in, fam: directed[i].fam})
+	}
+	nRandom := nSeq
+	nSeq = len(jobs)
 	results := make([]*c05SeqResult, nSeq)
 	workers := runtime.NumCPU()
 	if workers > 16 {
@@ -1033,7 +1314,10 @@ func checkC05(c *lib.Ctx) {
 	}
 	var wg sync.WaitGroup
 	next := make(chan int, nSeq)
-	for i := range jobs {
+	for i := nRandom; i < nSeq; i++ { // the directed sequences first: they are few, and the largest ones take longest
+		next <- i
+	}
+	for i := 0; i < nRandom; i++ {
 		next <- i
 	}
 	close(next)
@@ -1045,6 +1329,11 @@ func checkC05(c *lib.Ctx) {
 				if time.Now().After(deadline) || c.Stop("c05/seq") {
 					continue
 				}
+				if in := jobs[i].in; in != nil {
+					results[i] = c05RunSeq(in.Mode, in.Tree, in.Ops, nil, 0, false)
+					results[i].hist["directed:"+jobs[i].fam]++
+					continue
+				}
 				rng := rand.New(rand.NewSource(jobs[i].seed))
 				tree := c05SeedTree(rng)
 				results[i] = c05RunSeq(jobs[i].mode, tree, nil, rng, jobs[i].n, false)
@@ -1054,6 +1343,14 @@ func checkC05(c *lib.Ctx) {
 	wg.Wait()
 
 	c05PhaseV.Store("c05/shrink")
+	seqTime := time.Since(started)
+	// minimising is bounded in time as a whole and per witness (a defect that fails many large cases must not cost
+	// more than that; what is not minimised is reported as the failing prefix of its sequence)
+	shrinkAll, shrinkOne := 45*time.Second, 12*time.Second
+	if c.Tier == "thorough" {
+		shrinkAll, shrinkOne = 5*time.Minute, 40*time.Second
+	}
+	shrinkEnd := time.Now().Add(shrinkAll)
 	shrunk := map[string]map[string]bool{}
 	skippedSeqs := 0
 	orderOff := 0
@@ -1081,7 +1378,11 @@ func checkC05(c *lib.Ctx) {
 				r.Fail(lib.Failure{Kind: "oracle", Key: f.Key, What: fmt.Sprintf("%s [%s paths]: %s", c05OpText(f.Op), min.Mode, f.What), Input: min, Expected: f.Expected, Actual: f.Actual})
 				continue
 			}
-			min := c05Shrink(res.in, f.Key, f.Sig, f.Step)
+			until := time.Now().Add(shrinkOne)
+			if until.After(shrinkEnd) {
+				until = shrinkEnd
+			}
+			min := c05Shrink(res.in, f.Key, f.Sig, f.Step, until)
 			// re-run the minimal input for the evidence shown with it
 			exp, act, what, stepText := f.Expected, f.Actual, f.What, c05OpText(f.Op)
 			if rr := c05RunSeq(min.Mode, min.Tree, min.Ops, nil, 0, true); rr != nil {
@@ -1095,6 +1396,7 @@ func checkC05(c *lib.Ctx) {
 			r.Fail(lib.Failure{Kind: "oracle", Key: f.Key, What: fmt.Sprintf("%s [%s paths]: %s", stepText, min.Mode, what), Input: min, Expected: exp, Actual: act})
 		}
 	}
+	r.Note("%d generated and %d directed sequences in %.1f s; minimising the failing ones %.1f s", nRandom, nSeq-nRandom, seqTime.Seconds(), time.Since(started).Seconds()-seqTime.Seconds())
 	if skippedSeqs > 0 {
 		r.Skip("%d of %d sequences not run: time budget of the tier exhausted", skippedSeqs, nSeq)
 	}
@@ -1115,6 +1417,21 @@ func checkC05(c *lib.Ctx) {
 	r.Rule += c05cRule
 	c05PhaseV.Store("c05/composite")
 	checkC05Composite(c)
+}
+
+func c05AtoI(s string) int64 {
+	var n int64
+	fmt.Sscan(s, &n)
+	return n
+}
+
+func c05Bucket(n int) int {
+	for _, b := range []int{4096, 2048, 1025, 1024, 257, 256, 129} {
+		if n >= b {
+			return b
+		}
+	}
+	return 0
 }
 
 func c05OpText(op c05Op) string {
